@@ -253,7 +253,7 @@ def run(run):
     run.bound = {"instances": len(cases), "entry_points": 16, "near_miss_kinds": 8}
     run.assumptions += ["independent path walker mc/spec/harness.py:selector_paths/resolves; instances from the frozen spec model",
                         "only selectors the selector syntax can spell are asserted on object forms; remove/clear: 'accepted' = not refused as an invalid selector"]
-    run.pmap(run_instance, cases)
+    run.pmap(run_instance, cases, order_independent=True)
     run.part.sample({"version": "2.1", "key": "objects:malware", "label": "min+is_family#0", "selector": "is_family", "entry": "add_markings", "expected": "accepted (addresses false)"})
     run.part.sample({"version": "2.1", "key": "observables:file", "label": "max", "selector": "extensions.windows-pebinary-ext.sections.[0].entropy", "entry": "parse(dict)"})
     run.part.sample({"version": "2.0", "key": "objects:tool", "label": "max", "selector": "labels.[1]", "derived": "index-past-end", "expected": "refused"})
